@@ -30,8 +30,8 @@ CHECKS = {
  "C09": dict(level="proof", tech="enumeration and discharge of every panic site, loop-bound and recursion analysis on all Decode paths", ref="§4 C09",
    text="Every instruction that can panic on a decode path is enumerated and discharged by a dominating guard or whole-program fact; loops are counted and input-bounded; no recursion, goroutines or foreign locks.",
    note="Relative to the no-panic entries of the stdlib model; 64-bit int. Unbounded allocation is C10; error propagation is C11."),
- "C10": dict(level="proof", tech="taint analysis: wire-derived values to allocation sizes, with dominance-based sanitisers (comparison with buf.Len(), min)", ref="§4 C10",
-   text="No allocation size on any decode path (or in any reader primitive instantiation) derives from a wire value without being bounded by the bytes present.",
+ "C10": dict(level="proof", tech="taint analysis: wire-derived values to allocation sizes (and to the choice of a size-class pool), with dominance-based sanitisers (comparison with buf.Len(), min)", ref="§4 C10",
+   text="No allocation size on any decode path (or in any reader primitive instantiation) derives from a wire value without being bounded by the bytes present; no pool asked for memory there is selected by a wire value; every wire-counted loop consumes input on each completed iteration.",
    note="The constant factor (element size) and allocator behaviour are reported, not judged."),
  "C11": dict(level="proof", tech="path-sensitive error-discipline analysis: every failing atom must end in a provably non-nil error", ref="§4 C11",
    text="On every path of every Decode, reader primitive and lookup on which a read fails, comes back short, a nested Decode fails or a key is unknown, the function returns a non-nil error; with C07 every strict prefix of a valid encoding is rejected.",
